@@ -891,7 +891,7 @@ func (g *Gen) exprOf(typ string, depth int) *GExpr {
 		return g.varOf("portion")
 	case "string":
 		if g.r.Chance(7, 10) {
-			return &GExpr{Kind: XString, S: g.r.Pick([]string{"k", "k", "k", "key", "key", "hello world", "", "é", "😀", "a😀𝔘b", "non\u00a0breaking", "\u00a0", "em\u2003space\ufeff", "a\\\"b", "fee", "ends with a quote\\\""})}
+			return &GExpr{Kind: XString, S: g.r.Pick([]string{"k", "k", "k", "key", "key", "hello world", "", "é", "😀", "a😀𝔘b", "non\u00a0breaking", "\u00a0", "em\u2003space\ufeff", "100%", "%d of %s", "2.5%!", "a\\\"b", "fee", "ends with a quote\\\""})}
 		}
 		return g.varOf("string")
 	}
